@@ -109,7 +109,8 @@ def h_parsable_struct(f: int, i: int, a: int, b: int, c: int):
     return True
 
 
-SIG = (('red', '31'), ('[38;5;9', '38;5;9'), ('[99', '99'), ('[1m', '1m'), ('[1;31', '1;31'), ('bold', '1'), ('[ 4', ' 4'), ('[38;5', '38;5'))
+SIG = (('red', '31'), ('[38;5;9', '38;5;9'), ('[99', '99'), ('[1m', '1m'), ('[1;31', '1;31'), ('bold', '1'), ('[ 4', ' 4'), ('[38;5', '38;5'),
+       ('[[31', '[31'), ('[~', '~'))
 
 
 def h_conjunction(n: int, s1: int, r1: int, s2: int, r2: int, cls: int):
@@ -125,6 +126,9 @@ def h_conjunction(n: int, s1: int, r1: int, s2: int, r2: int, cls: int):
     elif cls != 0:
         return None
     used = [x for row in S(s, n) for x in row]
+    given = [SIG[pick(s1, 0, len(SIG) - 1)][1], SIG[pick(s2, 0, len(SIG) - 1)][1]]
+    if sorted(set(used)) != sorted(set(given)):
+        return ('verbatim-text-altered', given, used)
     v = all(valid_text(x) for x in used)
     if s.is_formatting_valid() != v:
         return ('is_formatting_valid-wrong', used, s.is_formatting_valid())
@@ -162,6 +166,24 @@ def h_members(lo: int, k: int, form: int):
         if not strict(x):
             return ('member-setting-not-a-group', name, x)
     cover('member')
+    return True
+
+
+INT_LISTS = ([1, 38, 5, 100], [38, 5, 100, 1, 4], [4, 48, 2, 1, 2, 3, 9], (58, 5, 7, 21), '1;38;5;100', [31, 1], ['1', '38', '5', '100'], [[1], [38, 5, 100]])
+
+
+def h_int_lists(k: int, cls: int):
+    """Known codes given as several ints / a list / a ';' string (colour group not first): always valid and parsable."""
+    arg = choose(k, INT_LISTS)
+    if arg is None or cls not in (0, 1):
+        return None
+    s = AnsiString('a', *arg) if (cls == 0 and isinstance(arg, list) and all(isinstance(x, int) for x in arg)) else (AnsiString('a', arg) if cls == 0 else AnsiStr('a', arg))
+    if not s.is_formatting_valid() or not s.is_formatting_parsable():
+        return ('int-list-not-parsable', repr(arg), S(s))
+    for x in S(s)[0]:
+        if not strict(x):
+            return ('int-list-setting-not-a-group', repr(arg), x)
+    cover('int-list')
     return True
 
 
@@ -303,11 +325,12 @@ def obligations(tier):
         obs.append(Ob('parsable/struct%d' % f, h_parsable_struct, dict(f=f), need=(), budget=600, bounds='form %r' % STRUCT[f], kinds=KINDS))
     for cls in (0, 1):
         obs.append(Ob('conjunction/n2/c%d' % cls, h_conjunction, dict(n=2, cls=cls), need=('all-parsable', 'some-unparsable', 'valid', 'invalid'),
-                      budget=900, bounds='n=2, two settings from an 8-setting alphabet', kinds=KINDS))
+                      budget=900, bounds='n=2, two settings from a 10-setting alphabet', kinds=KINDS))
     n_members = len(AnsiFormat.__members__)
     for lo in range(0, n_members, 50):
         obs.append(Ob('members/%d' % lo, h_members, dict(lo=lo), need=('member',), budget=900,
                       bounds='members %d..%d x 3 spellings' % (lo, min(lo + 49, n_members - 1)), kinds=KINDS))
+    obs.append(Ob('int-lists', h_int_lists, {}, need=('int-list',), budget=300, bounds='8 multi-code spellings x 2 classes', kinds=KINDS))
     obs.append(Ob('codes', h_codes, {}, need=('code',), budget=300, bounds='all known non-reset single codes', kinds=KINDS))
     obs.append(Ob('helpers', h_helpers, {}, need=('helper',), budget=600, bounds='15 helpers on {0,1,127,255}', kinds=KINDS))
     for vn in (1, 2, 3) if q else (1, 2, 3, 4):
